@@ -236,7 +236,7 @@ class TcpServer(object):
     """enip.main.main() in a daemon thread.  Only one per process."""
     _started = False
 
-    def __init__(self, specs, extra_argv=(), **main_kwds):
+    def __init__(self, specs, extra_argv=(), no_config=True, **main_kwds):
         cpppo, parser, device, logix, ucmm = _mods()
         from cpppo.server.enip import main as enip_main
         assert not TcpServer._started, 'one TCP simulator per process'
@@ -245,7 +245,7 @@ class TcpServer(object):
         self.enip_main = enip_main
         self.specs = [dict(s) for s in specs]
         self.control = cpppo.apidict(timeout=1.0, done=False, disable=False, latency=0.05)
-        argv = ['--address', '127.0.0.1:0', '--no-udp', '--no-config'] + list(extra_argv) + [tag_arg(s) for s in self.specs]
+        argv = ['--address', '127.0.0.1:0', '--no-udp'] + (['--no-config'] if no_config else []) + list(extra_argv) + [tag_arg(s) for s in self.specs]
         self.error = None
 
         def target():
